@@ -36,6 +36,9 @@ STRENGTHENED = {
     "C05f": "the harness records the case in flight; when a shard process is killed by a signal the parent replays that case in a fresh process, and a second death by signal is reported as a VIOLATION with that input (anything else stays exit 2) - `tools/selftest.sh` covers both outcomes",
     "C07f": "`params['number_of_grains']` is now smaller than the mineral's grain count for n = 2 mod 4 (1: a dictionary made for a coarser aggregate), larger for n = 0 mod 4, equal for odd n",
     "C08f": "`order_independence` additionally hands [olivine, enstatite, identically built olivine twin] to one `update_all` call: both twins must be updated at every step and stay bit-identical, and the others must not notice",
+    "C15f": "new oracle `zero_volume_many_draws`: 4 snapshots x 1e6 samples per evaluation from textures with zero-volume grains (6.4e7 draws per quick run), with exact zero-draw, membership and per-grain proportion checks",
+    "C17f": "new oracle `large_entries`: minerals of 2000..9000 grains with enough snapshots for 12..40 MiB archive entries, saved under a postfix next to a small mineral and as a whole file, loaded back through both loaders",
+    "C20f": "conversion tolerances now follow the measured accuracy of the conversion pair (3.8e-16 |v| over 2e5 points down to 1e-17 rad from either pole, |v| in 1e-150..1e150): round trip 1e-13 |v|, colatitude 1e-14 rad against atan2(hypot(x,y), z)",
     "C20": "new differential part of `point_density`: raw estimates are rebuilt from the documented counting grid with pydrex's kernel functions, normalised, clipped and compared (1e-9)",
 }
 
